@@ -108,6 +108,7 @@ func checkC09(w *World, r *Report) {
 	r.floor("C09.version", "stores to Atom.Val of shared atoms", nv, 1)
 
 	checkRMW(w, r, e)
+	casExactRule(w, r, e, "C09.install")
 	r.rule("C09.pure-update", "the optimistic swap! applies the update function to a value other threads can still see and may discard the result: no library function writes into the storage of a value it was given (container writes go to storage allocated in the same activation; shared with C02.write)")
 	npu := ruleContainerWrites(w, r, e, "C09.pure-update", func(fn *ssa.Function) bool { return runtimePkg(fnPkgPath(fn)) }, false)
 	r.floor("C09.pure-update", "container write sites in the library", npu, 40)
@@ -668,6 +669,7 @@ func checkC10(w *World, r *Report) {
 	r.floor("C10.deliver", "exits of the body goroutine", nd, 2)
 	singleOutcomeRule(w, r, e, "C10.single-outcome")
 	doneFlagRule(w, r, e, "C10.done-flag")
+	futureWritersRule(w, r, e, "C10.readers")
 	// redeposit
 	nrecv := 0
 	for _, b := range deref.Blocks {
@@ -891,6 +893,7 @@ func checkC11(w *World, r *Report) {
 	} else {
 		r.undecided("C11.local", nil, "evaluator model", token.NoPos, m.why)
 	}
+	capturedStateRule(w, r, e, "C11.captured-state")
 	// own lock
 	r.rule("C11.own-lock", "every scope has a mutex of its own: the mu field of an Env is only ever assigned a mutex allocated in the same activation (the ascent to the outer scope locks the outer scope while the inner one is read-locked; with one shared mutex that is a recursive read lock, which dead-locks as soon as a writer queues between the two)")
 	nl := 0
@@ -1243,4 +1246,255 @@ func doneFlagRule(w *World, r *Report, e *Engine, rule string) {
 		}
 	}
 	r.floor(rule, "returns of IsDone and stores to Done", n, 3)
+}
+
+// capturedStateRule: a function value registered as a builtin is called by any number of evaluations at the
+// same time; whatever it captured from the registration activation is shared by all of them.  It may read
+// it, but never write it: no assignment to a captured variable, no element/map write into captured storage,
+// directly or through a callee that writes through the parameter it is handed.
+func capturedStateRule(w *World, r *Report, e *Engine, rule string) {
+	r.rule(rule, "closures registered as builtins (the binder's adapters and the closures passed to call.Call) write nothing they captured from the registration activation: no assignment to a captured variable and no write into captured storage, directly or through a callee (such state would be shared, unlocked, by all concurrent calls)")
+	var clos []*ssa.Function
+	seen := map[*ssa.Function]bool{}
+	add := func(f *ssa.Function) {
+		if f != nil && f.Parent() != nil && !seen[f] && !isTestFunc(w, f) {
+			seen[f] = true
+			clos = append(clos, f)
+		}
+	}
+	for _, f := range w.registeredFuncs() {
+		add(f)
+	}
+	if callFn := w.Fn("lib/call", "call"); callFn != nil {
+		for _, f := range w.withPkgHelpers(callFn) {
+			for _, an := range allAnon(f) {
+				add(an)
+			}
+		}
+	}
+	n := 0
+	for _, cl := range clos {
+		for i, fv := range cl.FreeVars {
+			n++
+			var bad []string
+			var visit func(v ssa.Value, depth int)
+			visited := map[ssa.Value]bool{}
+			visit = func(v ssa.Value, depth int) {
+				if depth > 6 || visited[v] {
+					return
+				}
+				visited[v] = true
+				for _, ref := range *v.Referrers() {
+					switch u := ref.(type) {
+					case *ssa.Store:
+						if u.Addr == v {
+							bad = append(bad, "assignment at "+w.pos(u.Pos()))
+						}
+					case *ssa.UnOp:
+						if u.Op == token.MUL {
+							visit(u, depth+1) // the captured value itself
+						}
+					case *ssa.IndexAddr:
+						for _, u2 := range *u.Referrers() {
+							if st, ok := u2.(*ssa.Store); ok && st.Addr == ssa.Value(u) {
+								bad = append(bad, "element write at "+w.pos(st.Pos()))
+							}
+						}
+					case *ssa.MapUpdate:
+						if u.Map == v {
+							bad = append(bad, "map write at "+w.pos(u.Pos()))
+						}
+					case *ssa.Slice:
+						visit(u, depth+1)
+					case *ssa.Phi:
+						visit(u, depth+1)
+					case ssa.CallInstruction:
+						c := u.Common()
+						if bi, ok := c.Value.(*ssa.Builtin); ok {
+							if (bi.Name() == "append" || bi.Name() == "copy" || bi.Name() == "delete" || bi.Name() == "clear") && len(c.Args) > 0 && c.Args[0] == v {
+								bad = append(bad, bi.Name()+" at "+w.pos(u.Pos()))
+							}
+							continue
+						}
+						callee := c.StaticCallee()
+						if callee == nil || len(callee.Blocks) == 0 {
+							continue
+						}
+						for k, a := range c.Args {
+							if a != v || k >= len(callee.Params) {
+								continue
+							}
+							switch a.Type().Underlying().(type) {
+							case *types.Slice, *types.Map:
+								if writesParam(callee, k, map[*ssa.Function]bool{}, 0) {
+									bad = append(bad, "handed to "+callee.Name()+", which writes through it, at "+w.pos(u.Pos()))
+								}
+							}
+						}
+					}
+				}
+			}
+			visit(fv, 0)
+			_ = i
+			r.check(len(bad) == 0, rule, cl, "captured "+fv.Name(), cl.Pos(), "only read", "captured "+fv.Name()+" is written by the registered closure ("+strings.Join(bad, "; ")+"): concurrent calls share and overwrite it")
+		}
+	}
+	r.floor(rule, "variables captured by registered closures", n, 6)
+}
+
+// casExactRule: the versioned install of an atom installs exactly when the version still matches and says so:
+// the only condition between entry and the store is the version comparison, every `true` result is reached
+// through the store, and every caller looks at the result (an install that silently did not happen is a lost update).
+func casExactRule(w *World, r *Report, e *Engine, rule string) {
+	r.rule(rule, "the atom's versioned install stores the new value under no other condition than the version comparison, reports true only after storing, and its result is examined at every call site (a discarded result means an update can be dropped silently)")
+	n := 0
+	for _, fn := range w.pkgFuncs("lib/concurrent") {
+		if !isAtomCAS(w, e, fn) {
+			continue
+		}
+		var installs []ssa.Instruction
+		for _, b := range fn.Blocks {
+			for _, in := range b.Instrs {
+				switch x := in.(type) {
+				case *ssa.Store:
+					if fa, ok := x.Addr.(*ssa.FieldAddr); ok && fa.X == ssa.Value(fn.Params[0]) && fieldName(fa.X.Type(), fa.Field) == "Val" {
+						installs = append(installs, in)
+					}
+				case *ssa.Call:
+					if callee := x.Call.StaticCallee(); callee != nil && len(x.Call.Args) >= 1 && x.Call.Args[0] == ssa.Value(fn.Params[0]) && storesRecvField(callee, "Val") {
+						installs = append(installs, in)
+					}
+				}
+			}
+		}
+		for _, in := range installs {
+			n++
+			var extra []string
+			for _, a := range knownConds(in.Block()) {
+				d := describeVal(e, a.v, 0)
+				if strings.Contains(d, "version") {
+					continue
+				}
+				extra = append(extra, d)
+			}
+			r.check(len(extra) == 0, rule, fn, "conditions on the install", in.Pos(), "the version comparison only", "the install also depends on "+strings.Join(extra, ", ")+": with an unchanged version the new value may still not be stored, although the caller is told (or assumes) it was")
+		}
+		for _, b := range fn.Blocks {
+			if len(b.Instrs) == 0 {
+				continue
+			}
+			ret, ok := b.Instrs[len(b.Instrs)-1].(*ssa.Return)
+			if !ok || len(ret.Results) != 1 {
+				continue
+			}
+			v := resolveRet(ret.Results[0])
+			if c, ok := v.(*ssa.Const); ok && c.Value != nil && c.Value.Kind() == constant.Bool && !constant.BoolVal(c.Value) {
+				continue
+			}
+			n++
+			dom := false
+			for _, in := range installs {
+				if in.Block() == b || in.Block().Dominates(b) {
+					dom = true
+				}
+			}
+			// a computed result (unchanged := version == v) is fine when the install is on its true edge: covered above
+			if _, isConst := v.(*ssa.Const); !isConst {
+				dom = true
+			}
+			r.check(dom, rule, fn, "result true", ret.Pos(), "only after the value was stored", "the install reports success on a path that did not store the value")
+		}
+		// call sites
+		for _, caller := range w.Funcs {
+			if isTestFunc(w, caller) {
+				continue
+			}
+			for _, c := range staticCallsTo(caller, fn) {
+				n++
+				used := false
+				for _, ref := range *c.Referrers() {
+					switch ref.(type) {
+					case *ssa.If, *ssa.Return, *ssa.UnOp, *ssa.BinOp, *ssa.Phi, *ssa.Store:
+						used = true
+					}
+				}
+				r.check(used, rule, caller, "result of the versioned install", c.Pos(), "examined", "the result of the versioned install is discarded: when another update got in first this one is dropped without anyone noticing (the caller still reports the value as installed)")
+			}
+		}
+	}
+	r.floor(rule, "installs, results and call sites of the versioned install", n, 3)
+}
+
+// futureWritersRule: only Cancel (and the body goroutine) change a future's state; the reading methods do not
+// cancel it.
+func futureWritersRule(w *World, r *Report, e *Engine, rule string) {
+	r.rule(rule, "the methods that read a future (Deref, IsDone, IsCancelled, printing) neither call Cancel / the cancel function nor write Done or Cancelled, directly or through a function of the package: a reader that gives up does not change the future for the other readers (only Cancel and the body goroutine change its state)")
+	isFuture := func(t types.Type) bool { return strings.HasSuffix(derefType(t).String(), "Future") }
+	// functions that change a future's state themselves
+	writes := map[*ssa.Function]string{}
+	for _, fn := range w.pkgFuncs("lib/concurrent") {
+		for _, b := range fn.Blocks {
+			for _, in := range b.Instrs {
+				switch x := in.(type) {
+				case *ssa.Store:
+					if fa, ok := x.Addr.(*ssa.FieldAddr); ok && isFuture(fa.X.Type()) {
+						if f := fieldName(fa.X.Type(), fa.Field); f == "Done" || f == "Cancelled" {
+							writes[fn] = "writes " + f
+						}
+					}
+				case ssa.CallInstruction:
+					if ld, ok := x.Common().Value.(*ssa.UnOp); ok {
+						if fa, ok := ld.X.(*ssa.FieldAddr); ok && fieldName(fa.X.Type(), fa.Field) == "CancelFunc" {
+							writes[fn] = "calls the cancel function"
+						}
+					}
+				}
+			}
+		}
+	}
+	// transitively through static calls inside the package
+	var reaches func(fn *ssa.Function, seen map[*ssa.Function]bool) string
+	reaches = func(fn *ssa.Function, seen map[*ssa.Function]bool) string {
+		if why, ok := writes[fn]; ok {
+			return fn.Name() + " " + why
+		}
+		if seen[fn] {
+			return ""
+		}
+		seen[fn] = true
+		for _, g := range append([]*ssa.Function{fn}, allAnon(fn)...) {
+			for _, b := range g.Blocks {
+				for _, in := range b.Instrs {
+					if ci, ok := in.(ssa.CallInstruction); ok {
+						if _, isGo := in.(*ssa.Go); isGo {
+							continue
+						}
+						if sc := ci.Common().StaticCallee(); sc != nil && sc.Pkg == fn.Pkg {
+							if why := reaches(sc, seen); why != "" {
+								return why
+							}
+						}
+					}
+				}
+			}
+		}
+		return ""
+	}
+	bodySet := map[*ssa.Function]bool{}
+	if body := futureBody(w); body != nil {
+		for _, f := range w.withPkgHelpers(body) {
+			bodySet[f] = true
+		}
+		bodySet[body] = true
+	}
+	n := 0
+	for _, fn := range w.pkgFuncs("lib/concurrent") {
+		if fn.Signature.Recv() == nil || !isFuture(fn.Signature.Recv().Type()) || fn.Name() == "Cancel" || bodySet[fn] {
+			continue
+		}
+		n++
+		why := reaches(fn, map[*ssa.Function]bool{})
+		r.check(why == "", rule, fn, "state changes made by a reading method", fn.Pos(), "none", fn.Name()+" changes the future's state ("+why+"): one reader changes what every other reader of the future sees (cancelled / done without future-cancel)")
+	}
+	r.floor(rule, "methods of Future other than Cancel and the body", n, 3)
 }
